@@ -149,7 +149,15 @@ ADDENDA = {
            'C07_root_spans_exact (one span per item for bracket-balanced items without a top-level comma; (rootSpans s).isOk = Balanced s), C07_span_kinds (aN, a[N], a.name, bare identifiers, star markers, a[literal], `expr AS name` for EVERY expr), '
            'C07_span_info_sound (inversion: a non-null info correctly names its column - the guarantee stated in the source comment), C07_unquote_escaped_full (unquote_string undoes js_string_escape_column_name for EVERY name, after the repair D20), '
            'C07_text_to_header_width / C07_text_header_matches_records: the hypothesis `aligned items infos` of C07_header_matches_records is DISCHARGED from the item texts for the JS port. Defects D19 (tuple item, Python) and D20 (control-character escapes, JS) found by these proofs/ties and fixed. ',
-    'C09': 'VARIABLE DISCOVERY: C09_basic_vars_iff: n is reported by parse_basic_variables (model) IFF `a<n>` occurs delimited by non-word characters (sound AND complete); C09_array_vars_sound / _complete (with the counterexample `a[1]a[2]`); C09_var_not_inside_identifier. Tied to both ports. ',
+    'C09': 'VARIABLE BINDING on the real algorithms (Model/Variables.lean: parse_dictionary_variables, parse_attribute_variables, map_variables_directly, ensure_no_ambiguous_variables, generate_init_statements; tied to both ports): '
+           'C09_dict_no_false_negative (the "probably has" heuristic never misses a referenced column: every name segment survives the escaping), C09_dict_variable_binds_position, C09_attribute_variable_binds_position, C09_attribute_unknown_column_fails, '
+           'C09_attr_duplicate_names_diverge (Python last / rbql.js first column of a duplicated name), C09_init_assignments_cover, C09_direct_variable_bound, C09_ambiguous_detected. VARIABLE DISCOVERY: C09_basic_vars_iff: n is reported by parse_basic_variables (model) IFF `a<n>` occurs delimited by non-word characters (sound AND complete); C09_array_vars_sound / _complete (with the counterexample `a[1]a[2]`); C09_var_not_inside_identifier. Tied to both ports. ',
+    'C04': 'TEXT-TO-KEYS (Model/JoinResolve.lean, tied to resolve_join_variables of both ports): C04_on_pair_resolves, C04_on_sides_symmetric (b… == a… resolves like a… == b…), C04_record_number_keys_resolve, '
+           'C04_record_numbers_swapped_counterexample (`bNR == NR` is refused), C04_ambiguous_key_refused, C04_resolved_key_lists_have_equal_length (one entry per pair, in order: the join well-formedness hypothesis of the rbql.js refinement holds for every parsed query). ',
+    'C08': 'JAVASCRIPT PORT: the rbql.js literal scanner is modelled (separateLiteralsJs) and tied on every string of length <= 7 over {\' " \\ a `}; C08_js_literals_reassemble, C08_js_literal_closes_after_escaped_backslash (regression theorem of defect D23, fixed: '
+           '`\'a\\\\\' where …` swallowed the next clause), C08_js_literals_extracted, C08_js_literal_contents_opaque(_for_the_parse), C08_js_agrees_with_python_on_common_literals, counterexamples for every side condition and for the real differences (back-ticks, line feeds, triple quotes). ',
+    'C13': 'COMMAND LINE: which dialects `python -m rbql` hands to query_csv is modelled (Model/Cli.lean: cliDialects) and tied to the REAL run_with_python_csv (query_csv replaced by a recorder) for 25 delimiter spellings x {no policy, 5 policies} x {input, csv, tsv}: '
+           'C13_cli_out_format_input (output dialect = input dialect), C13_cli_out_format_named, C13_cli_default_policy, C13_cli_delim_spelling. ',
     'C16': 'SHARED STATE made explicit: machines over module-level state g (steps may READ it); C16_frame_implies_independence: if no step writes g (the frame condition the regenerated footprint supports) every schedule gives the solo results; '
            'C16_shared_write_counterexample / _history_counterexample: a step that records a decision in shared state (the shape of the seeded shared NumHandler) makes results depend on schedule and on history. ',
     'C19': 'THE rbql.js ENGINE IS NOW MODELLED where it differs from the reference (Model/EngineJs.lean: JSON.stringify-keyed Set/Map for DISTINCT, stable_compare over keys+NR then reverse, compare_key_arrays of decoded group keys, JSON text of multi-column join keys, TopWriter ignoring its sub-writer); '
